@@ -57,6 +57,8 @@ def main():
                     viol = re.findall(r"^VIOLATION property=(\S+) replay=(\S+)", c.stdout, re.M)
                     classes = re.findall(r"violation class=(\S+)", c.stderr)
                     runs.append((c.returncode, sorted(set(v[1] for v in viol)), sorted(set(classes))))
+                    if c.returncode not in (0, 1):
+                        print(f"  !! {name}/{pid}: exit {c.returncode}: {(c.stdout[-600:] + c.stderr[-600:]).strip()}", flush=True)
                 verdicts[pid] = runs
             detected = all(r[0] == 1 and r[1] for r in verdicts[prop])
             stable = verdicts[prop][0][2] == verdicts[prop][1][2]
